@@ -157,6 +157,20 @@ def gen(rng, depth=3, plant=None, kinds=None):
         return row(mo(o), row(*items), mo(c))
     if k == "juxta":
         return row(operand(rng, plant), mo("&#x2062;"), g(depth - 1))
+    if k == "enclose":
+        return "<menclose notation='%s'>%s</menclose>" % (rng.choice(["box", "circle", "updiagonalstrike", "actuarial", "top bottom", "longdiv", "roundedbox"]), g(depth - 1))
+    if k == "multiscripts":
+        base = mi(rng.choice(IDENTS))
+        post = "".join(rng.choice([operand(rng, plant), "<none/>"]) for _ in range(2 * rng.randint(1, 2)))
+        pre = "<mprescripts/>" + "".join(rng.choice([operand(rng, plant), "<none/>"]) for _ in range(2)) if rng.random() < 0.6 else ""
+        return "<mmultiscripts>%s%s%s</mmultiscripts>" % (base, post, pre)
+    if k == "cases":
+        rows = "".join("<mtr><mtd>%s</mtd><mtd><mtext>if&#xA0;</mtext>%s</mtd></mtr>" % (g(depth - 2), row(mi("x"), mo(rng.choice(["&lt;", "&#x2265;", "="])), operand(rng, plant)))
+                       for _ in range(rng.randint(2, 3)))
+        return row(mi("f"), mo("="), row(mo("{"), "<mtable columnalign='left'>%s</mtable>" % rows))
+    if k == "labeled":
+        rows = "".join("<mlabeledtr><mtd><mtext>(%d)</mtext></mtd><mtd>%s</mtd><mtd>%s</mtd></mlabeledtr>" % (i + 1, g(depth - 2), row(mo("="), operand(rng, plant))) for i in range(2))
+        return "<mtable>%s</mtable>" % rows
     if k == "chain":
         # a flat row of simple operands joined by one inline operator: a/b/c, a:b:c, a - b - c (no inner rows)
         op = rng.choice(["/", ":", "&#xF7;", "&#x2215;", "&#xD7;", "-", "&#x2218;", "/"])
@@ -172,7 +186,8 @@ def gen(rng, depth=3, plant=None, kinds=None):
 
 
 MORE_KINDS = ["sum", "prod", "frac", "pow", "sub", "sqrt", "root", "fn", "paren", "abs", "rel", "bigop", "limit", "matrix", "leaf", "leaf",
-              "neg", "subsup", "overbar", "fenced", "style", "subsup_any", "underover_any", "script_any", "list", "list", "juxta", "chain", "chain", "mixed"]
+              "neg", "subsup", "overbar", "fenced", "style", "subsup_any", "underover_any", "script_any", "list", "list", "juxta", "chain", "chain", "mixed",
+              "enclose", "multiscripts", "cases", "labeled"]
 
 
 def math(body, attrs=""):
